@@ -176,11 +176,15 @@ def vin(kind, spec):
     me = core_of(kind, spec)
     preds = []
     if me is not None:
-        for h in HISTORY:
+        for i, h in enumerate(HISTORY):
             c = core_of(h["kind"], h["spec"])
-            if c is not None and sum(1 for x, y in zip(c, me) if x == y) >= 3 and h["spec"] is not spec:
-                preds.append(h)
-    return {"sequence": preds[-8:] + [{"kind": kind, "spec": spec}]}
+            if c is not None and h["spec"] is not spec:
+                sim = sum(1 for x, y in zip(c, me) if x == y)
+                if sim >= 3:
+                    preds.append((sim, i, h))
+        # the most similar earlier cases (sharing all but one or two parameters), most recent first, in original order
+        preds = sorted(sorted(preds, key=lambda x: (-x[0], -x[1]))[:14], key=lambda x: x[1])
+    return {"sequence": [h for (_, _, h) in preds] + [{"kind": kind, "spec": spec}]}
 
 
 # ---- Coq literals -----------------------------------------------------------------------
@@ -585,6 +589,44 @@ def dir_case(ctx, files, spec, report=True):
 
 # ---------------------------------------------------------------------------------------
 
+def gen_family(rng):
+    """A SEQUENCE of formats to be handled one after the other by this one process: a base format and siblings that
+    share everything with it but ONE parameter (luma excursion, colour-difference excursion, either offset, width,
+    height, subsampling, coding mode), in random order -- stale per-process state (caches keyed on too little) shows
+    as a wrong file size, a truncated/masked read-back or a wrong comparison verdict.  Returns [(kind, spec), ...]."""
+    dl, dc = rng.choice([rng.randint(1, 24), rng.randint(1, 64)]), rng.choice([rng.randint(1, 24), rng.randint(1, 64)])
+    base = gen_format_spec(rng, depth_l=dl, depth_c=dc, max_samples=64)
+    base.update({"w": rng.choice([2, 4]), "h": 4, "lo": str(rng.choice([0, 16, 64])), "co": str(rng.choice([0, 128, 512]))})
+    sibs = [base]
+
+    def sib(**kw):
+        x = dict(base)
+        x.update(kw)
+        x["seed"] = rng.randrange(1 << 30)
+        sibs.append(x)
+
+    for which, d in (("lexc", dl), ("cexc", dc)):
+        deeper = min(64, d + rng.choice([1, 2, 8, rng.randint(1, 16)]))      # the property's depths: 1..64
+        if deeper != d:
+            sib(**{which: str(excursion_for_depth(rng, deeper))})
+        if d > 1:
+            sib(**{which: str(excursion_for_depth(rng, max(1, d - rng.choice([1, 2, 8, rng.randint(1, 16)]))))})
+    sib(lo=str(int(base["lo"]) + rng.choice([1, 16, 1000])))
+    sib(co=str(int(base["co"]) + rng.choice([1, 128, 1000])))
+    sib(w=base["w"] + 2)
+    sib(h=base["h"] + 4)
+    for cdf in (0, 1, 2):
+        if cdf != base["cdf"]:
+            sib(cdf=cdf)
+    sib(pcm=1 - base["pcm"])
+    rng.shuffle(sibs)
+    out = []
+    for x in sibs:
+        out.append(("file", x))
+        out.append(("compare", {"a": x, "variant": rng.choice(["msb_c", "msb_c", "msb_y", "samples1", "same"]), "vseed": rng.randrange(1 << 30)}))
+    return out
+
+
 def load_corpus(ctx):
     """corpus/C23/*.json: specs of past failures ({"kind": "file"|"compare"|"dirs", "spec": ...})."""
     out = []
@@ -614,13 +656,16 @@ def run(ctx):
         "values (0, max, msb, 0xFF...) else uniform; written and read back with the REAL code on disk, also with all padding bits randomised. "
         "compare cases: a pair (a, variant of a) through the real main(): same / k differing samples / padding only / one other video "
         "parameter / size / excursion / coding mode / picture number / missing .json (a, b, both) / missing, short, long, empty .raw; "
-        "directory mode: 1-5 numbered pairs. non-trivial = distinct (depths, sizes, subsampling, mode, variant) with a non-empty picture. "
+        "directory mode: 1-5 numbered pairs. sequences: families of a base format and siblings differing in exactly one of luma excursion / "
+        "colour-difference excursion / offsets / width / height / subsampling / coding mode, written, read and compared one after the other "
+        "in this one process (stale per-process state); a violation's input is the sequence of similar earlier cases + the failing one. "
+        "expected sizes/depths/bytes-per-sample are computed by the harness itself, never taken from the implementation. non-trivial = distinct (depths, sizes, subsampling, mode, variant) with a non-empty picture. "
         "oracle = round trip equality and verdict/counts computed from the in-memory pictures.")
     specs = []   # (kind, spec)
     for c in load_corpus(ctx):
         specs.append((c["kind"], c["spec"]))
     # ---- file cases: all depths 1..64, then random ------------------------------------------
-    n_file = ctx.pick(220, 4000)
+    n_file = ctx.pick(180, 4000)
     for d in range(1, 65):
         specs.append(("file", gen_format_spec(rng, depth_l=d, depth_c=rng.choice([d, rng.randint(1, 64)]), max_samples=8)))
     for d in [65, 66, 72, 96, 127, 128, 129, 200]:
@@ -628,7 +673,7 @@ def run(ctx):
     for _ in range(n_file - 72):
         specs.append(("file", gen_format_spec(rng)))
     # ---- compare cases ----------------------------------------------------------------------
-    n_cmp = ctx.pick(340, 5000)
+    n_cmp = ctx.pick(260, 5000)
     for i in range(n_cmp):
         v = VARIANTS[i % len(VARIANTS)] if i < 3 * len(VARIANTS) else rng.choice(VARIANTS + ["samples", "same", "padding", "samples1"])
         dl = (i % 64) + 1 if i < 128 else None
@@ -645,6 +690,9 @@ def run(ctx):
 
     import time
     t0 = time.time()
+    # ---- sequences of sibling formats through this one process ----------------------------------
+    for _ in range(ctx.pick(10, 150)):
+        specs.extend(gen_family(rng))
     lits = {"file": [], "compare": [], "dirs": []}
     metas = {"file": [], "compare": [], "dirs": []}
     prop_failed = {}
@@ -655,6 +703,7 @@ def run(ctx):
         except Exception as e:   # harness trouble is not a property violation: make it visible as a failed obligation
             ctx.obligation("harness:%s case runs" % kind, False, "corr-shard", "spec %r raised %r" % (spec, e))
             continue
+        HISTORY.append({"kind": kind, "spec": spec})
         if kind == "file":
             dl = int(spec["lexc"]).bit_length()
             ctx.count(1, key=("f", dl, int(spec["cexc"]).bit_length(), spec["w"], spec["h"], spec["cdf"], spec["pcm"]), bucket="file " + depth_bucket(dl))
@@ -763,7 +812,14 @@ def replay(ctx, data):
             print("  note:", s)
 
     rec = Rec()
-    if "pairs" in inp:
+    if "sequence" in inp:
+        # the whole sequence is run in THIS (fresh) process, in order; the property fails if any step fails
+        for i, step in enumerate(inp["sequence"]):
+            print(" step %d/%d: %s %s" % (i + 1, len(inp["sequence"]), step["kind"], json.dumps(step["spec"])[:300]))
+            fn = {"file": file_case, "compare": compare_case, "dirs": dir_case}[step["kind"]]
+            fn(rec, files, step["spec"])
+            HISTORY.append(step)
+    elif "pairs" in inp:
         dir_case(rec, files, inp)
     elif "variant" in inp:
         compare_case(rec, files, inp)
